@@ -1,6 +1,7 @@
 """More path rules: key conservation, release API, try failure, closure-once, key constructor,
 handle_unwind shape, poisoning."""
 from common import RuleResult, Violation
+from facts import ty_walk as _tywalk
 from interp import State, val_contains, val_ops, loc_s
 from rules_ts import analysed_fns, _fnloc
 from roles import KEY
@@ -263,15 +264,50 @@ def key_construction_sites(ctx):
     return sites
 
 
+def observed_clear_then_set(p):
+    """the path sets a bool cell to true after having observed it false: `replace(true)` whose old value is false, or a
+    `get()` that read false followed by `set(true)` on the same cell"""
+    def is_false(v):
+        return v == ("const", False) or (v and v[0] == "op" and p.facts.get(v[1]) is False)
+    last_get = {}
+    for e in p.events:
+        if e["k"] == "CELL_GET":
+            last_get[e["recv"]] = e["val"]
+        elif e["k"] == "CELL_REPLACE" and e["new"] == ("const", True) and is_false(e["old"]):
+            return True
+        elif e["k"] == "CELL_SET" and e["val"] == ("const", True) and e["recv"] in last_get and is_false(last_get[e["recv"]]):
+            return True
+    return False
+
+
 def rule_K1(ctx, R):
     """single guarded constructor of ThreadKey."""
     res = RuleResult("K1", "ThreadKey is constructed at one site, only on the edge where the thread-local flag test-and-set "
                            "found it clear; a failed get() constructs (and therefore drops) no key")
     sites = key_construction_sites(ctx)
-    tops = set(ctx.F.top_fn(f)["path"] for f, _ in sites)
     if len(sites) != 1:
         res.bad(Violation("K1", "<crate>", "sites", "ThreadKey is constructed at %d sites: %s" % (
             len(sites), sorted("%s:%s" % (f["path"], l) for f, l in sites))))
+    # the entry functions through which a freshly constructed key can come into existence (a private `const fn new()` or a
+    # closure that holds the struct literal is judged inlined into them)
+    from rules_ts import entry_fns
+    cg_ = None
+    try:
+        from rules_cg import cg_of
+        cg_ = cg_of(ctx)
+    except Exception:
+        pass
+    site_ids = set(ctx.F.top_fn(f)["id"] for f, _ in sites) | set(f["id"] for f, _ in sites)
+    tops = set()
+    for f in entry_fns(ctx):
+        if f["id"] in site_ids:
+            tops.add(f["path"])
+        elif cg_ is not None and "inputs" in f and not f["inputs"] and any(x["k"] == "adt" and x["path"] == KEY for x in _tywalk(f["output"])):
+            tops.add(f["path"])
+    for f, _ in sites:
+        t = ctx.F.top_fn(f)
+        if t.get("reachable"):
+            tops.add(t["path"])
     for top in sorted(tops):
         f = ctx.F.fn(top)
         paths, err, I = ctx.paths(f)
@@ -289,13 +325,7 @@ def rule_K1(ctx, R):
             drops = [e for e in p.ev("KEYDROP") if e.get("val") == "<constructed>"]
             if built:
                 nsome += 1
-                ok = False
-                for e in reps:
-                    old = e["old"]
-                    if e["new"] == ("const", True) and old[0] == "op" and p.facts.get(old[1]) is False:
-                        ok = True
-                    if e["new"] == ("const", True) and old == ("const", False):
-                        ok = True
+                ok = observed_clear_then_set(p)
                 if not ok:
                     bad = "a key is returned on a path where the flag test-and-set did not observe `clear`"
             else:
@@ -336,10 +366,21 @@ def rule_G1(ctx, R):
         seen_ok = seen_unw = False
         for p in paths:
             users = p.ev("USER")
-            tr = [u for u in users if u["f"] == "a1"]
-            ca = [u for u in users if u["f"] == "a2"]
             caught = p.ev("CAUGHT")
-            if len(tr) != 1:
+            begins = p.ev("CATCH_BEGIN")
+            ends = p.ev("CATCH_END") + caught
+            b0 = begins[0]["i"] if begins else -1
+            e0 = min([e["i"] for e in ends]) if ends else len(p.events)
+            # whichever parameter (or field of `self`) carries them: the callable run under catch_unwind is the try, the one
+            # run after the catch is the handler; nothing else may be called
+            tr = [u for u in users if b0 < u["i"] < e0] if begins else []
+            ca = [u for u in users if caught and u["i"] > caught[0]["i"]]
+            stray = [u for u in users if u not in tr and u not in ca]
+            if stray:
+                bad = "a callable is invoked outside the catch scope and outside the handler position"
+            if bad:
+                pass
+            elif len(tr) != 1:
                 bad = "try closure invoked %d times" % len(tr)
             elif not caught:
                 if ca:
